@@ -114,11 +114,7 @@ func (d *decoder) decodeArray(v value, elemType reflect.Type, decodeElem decodeF
 	} else if !d.checkArrayLength(uint64(n)) {
 		v.setArray(array{})
 	} else {
-		a := makeArray(elemType, int(n))
-		for i := 0; i < int(n) && d.remain > 0; i++ {
-			decodeElem(d, a.index(i))
-		}
-		v.setArray(a)
+		v.setArray(d.readArray(elemType, decodeElem, int(n)))
 	}
 }
 
@@ -128,12 +124,32 @@ func (d *decoder) decodeCompactArray(v value, elemType reflect.Type, decodeElem 
 	} else if !d.checkArrayLength(n - 1) {
 		v.setArray(array{})
 	} else {
-		a := makeArray(elemType, int(n-1))
-		for i := 0; i < int(n-1) && d.remain > 0; i++ {
-			decodeElem(d, a.index(i))
-		}
-		v.setArray(a)
+		v.setArray(d.readArray(elemType, decodeElem, int(n-1)))
 	}
+}
+
+// maxPrealloc is the number of bytes allocated on the word of a length prefix
+// alone. Larger values grow as their content arrives, so the memory in use
+// stays in proportion to the bytes actually received even when the size of the
+// message itself was misreported.
+const maxPrealloc = 16 * 1024
+
+func (d *decoder) readArray(elemType reflect.Type, decodeElem decodeFunc, n int) array {
+	size := n
+	if limit := 1 + maxPrealloc/(1+int(elemType.Size())); size > limit {
+		size = limit
+	}
+	a := makeArray(elemType, size)
+	for i := 0; i < n && !d.done(); i++ {
+		if i == size {
+			if size *= 2; size > n {
+				size = n
+			}
+			a = growArray(elemType, a, size)
+		}
+		decodeElem(d, a.index(i))
+	}
+	return a
 }
 
 // checkArrayLength reports whether an array of n elements can be held by the
@@ -174,6 +190,12 @@ func (d *decoder) read(n int) []byte {
 		// fail before allocating a buffer whose size was chosen by the peer.
 		d.setError(io.ErrUnexpectedEOF)
 		return nil
+	}
+	if n > maxPrealloc {
+		b := new(bytes.Buffer)
+		_, err := io.CopyN(b, d, int64(n))
+		d.setError(err)
+		return b.Bytes()
 	}
 	b := make([]byte, n)
 	n, err := io.ReadFull(d, b)
